@@ -57,7 +57,7 @@ theorem mono_newRPC (s : State) (r : Bool) (d : Option Nat) : Mono s (s.newRPC r
   constructor
   · exact SMono.refl _
   · exact RMono.append (RMono.refl _) _
-  all_goals simp
+  all_goals (simp <;> (try (intros; simp_all)))
 
 theorem mono_wake (s : State) (k : Nat) (v : Via) : Mono s (s.wake k v) := by
   unfold State.wake
